@@ -120,6 +120,8 @@ def win_recursion_stack(rng, depth):
     decoys = [rr, mb + rec["off"] + 0x20, base + 4 * rng.below(64), 0x11110000 + rng.below(100)] + [mb + f["off"] + 0x30 for f in inner + outer]
     data, exp = [], []
     sp = base
+    fp0 = rng.choice([0, base + 64])
+    fp = fp0
     for i, f in enumerate(acts):
         gcps = acts[i - 1]["params"] if i > 0 else 0
         fsize = gcps + f["locals"] + f["saved"]
@@ -130,12 +132,17 @@ def win_recursion_stack(rng, depth):
             ra = rr if (f is rec or rng.chance(1, 2)) else site(rec)
         else:
             ra = site(acts[i + 1])
-        for _ in range(fsize // 4):
-            data += le_bytes(rng.choice(decoys), 4)
+        words_ = [rng.choice(decoys) for _ in range(fsize // 4)]
+        for w in words_:
+            data += le_bytes(w, 4)
         data += le_bytes(ra, 4)
         sp += fsize + 4
+        # the caller's %ebp: passed through (FPO without base pointer, frame data program `$ebp $ebp =`), or the word the
+        # function saved at esp + (arguments for the callee) + saved registers - 8
+        if f["kind"] == "fpo_bp":
+            fp = words_[(gcps + f["saved"] - 8) // 4]
         if ra:
-            exp.append(dict(instr=ra - 1, resume=ra, sp=sp, trust="cfi"))
+            exp.append(dict(instr=ra - 1, resume=ra, sp=sp, trust="cfi", fp=fp))
     data += le_bytes(0, 4) * 2
     lines, seen = [], set()
     for f in acts:
@@ -152,7 +159,7 @@ def win_recursion_stack(rng, depth):
     sym_t = "T|" + "|".join(l.replace(" ", "~") for l in lines)
     gp = [rng.choice([0x0b0b0b0b, 0, mb + 0x1234])] + [0] * (A["ngp"] - 1)
     ip0 = mb + acts[0]["off"] + 0x14 + 4 * rng.below(8)
-    case = fmt_case(0, rng.choice([1, 1, 0]), ip0, base, rng.choice([0, base + 64]), 0, gp, "*", base, data, [(mb, 0x10000, sym_t)])
+    case = fmt_case(0, rng.choice([1, 1, 0]), ip0, base, fp0, 0, gp, "*", base, data, [(mb, 0x10000, sym_t)])
     return case, exp
 
 
